@@ -43,6 +43,12 @@ def fixed_cases():
     for kind in ["yesno", "password", "help", "error", gi]:
         fq = screen_gen.spec(inputs=[("1", [[10]], [4, lib.cps("q")])])
         out.append([3000, [fq, adv_specs.adv_spec(kind)], [L("1"), L("yes")], [1], 0, [[0, [3, 0, 0]], [1]], ["plain", kind]])
+    # one dialog INSTANCE asked as an ordinary modal question (answered yes) and later used as the quit dialog (answered no):
+    # the application must go on; and the other way round
+    for first, second in (("yes", "no"), ("no", "yes"), ("yes", "x")):
+        caller = screen_gen.spec(inputs=[("1", [[1, 1, 0]], [1])])          # ask, then redraw (and prompt again)
+        out.append([3000, [caller, adv_specs.adv_spec("yesno")], [L("1"), L(first), L("q"), L(second), L("1"), L(first), L("c")], [1], 0,
+                    [[0, [3, 0, 0]], [1]], ["plain", "yesno"]])
     # the quit dialog's answer is remembered: no, then yes
     out.append([3000, [plain, adv_specs.adv_spec("yesno")], [L("q"), L("no"), L("q"), L("no"), L("q"), L("yes"), L("q")], [1], 0,
                 [[0, [3, 0, 0]], [1]], ["plain", "yesno"]])
